@@ -276,7 +276,7 @@ def register_named_children(R):
                    pure=True, ensures=[('named_children', ens)], props=('C01', 'C11', 'C17', 'C10', 'C04'),
                    loops={0: Loop(inv, mod_locals=['name', 'child'], mod_fields=[],
                                   mod_at=lambda c, L: [(f, [c.x['yields'], c.x['yields0'], c.x['yields1']]) for f in ('$llen', '$litem')] +
-                                                      [('$set', [r_of(L.loc['memo'].t)]), ('$ypos', [c.x['yields1']])])},
+                                                      [('$set', [r_of(L.loc['memo'].t)]), ('$ypos', [c.x['yields0'], c.x['yields1']])])},
                    opts={'bind_partial': True, 'verify_only': True, 'no_search': True, 'no_model_replay': True},
                    note='generator; its yielded pairs are recorded component-wise in two ghost lists'))
 
